@@ -14,6 +14,7 @@ CONSTANTS
   WaitActivation = TRUE
   FixNonRequest = FALSE
   FixCloseReason = FALSE
+  DrainRemainder = TRUE
 SPECIFICATION FairSpec
 PROPERTIES PAllTold
 CHECK_DEADLOCK FALSE
